@@ -9,7 +9,11 @@
      extract_loop_block             blocks.py:~700-~1010
      extract_join_choice_block      blocks.py:~1010-end
 
-   VERSION.  The unsuffixed names follow /repo as of commit 19fd338.  Two parameters keep the
+   VERSION.  The unsuffixed names follow /repo as of commit 19fd338 plus the fixes F17j (both
+   Python-block extractors take the opener line's own indentation off the body lines first:
+   without_opener_indent) and F17m (extract_join_choice_block: comment lines at any indentation are
+   collected with the block and take no part in the dedent nor in the parse: join_kept); these two
+   are not parameterised (the `_cur` versions have them too).  Two parameters keep the
    earlier code expressible (for the `_refuted` witnesses of Props/C11b.v and for checking an
    unpatched copy):
      fixed = false : extract_conditional_block as of commit 45ce265:
@@ -246,41 +250,54 @@ Definition is_join_block_terminator (line : string) : bool :=
 (* extract_python_block                                                                         *)
 (* ------------------------------------------------------------------------------------------- *)
 
+(* _without_opener_indent (fix F17j): a body line that starts with the opener line's own leading
+   whitespace loses it (that indentation belongs to the enclosing @if body, whose lines reach the
+   extractor raw); nothing happens when the opener stands at column 0
+     prefix = opener[: len(opener) - len(opener.lstrip())]
+     if prefix and line.startswith(prefix): return line[len(prefix):] *)
+Definition without_opener_indent (line opener : string) : string :=
+  let prefix := take (ws_run opener) opener in
+  if nonempty prefix && startswith line prefix then drop (String.length prefix) line else line.
+
 (* _extract_py_new_syntax: the `while` from start_index + 1; k = lines consumed so far.
    fx = true: commit 3dd8bdc (whitespace-only lines of the dedented body become empty lines, as in the
-   <<py form); fx = false: the body lines are joined as dedented *)
+   <<py form); fx = false: the body lines are joined as dedented.
+   The test for @endpy reads the raw line; what is collected is the line without the opener's indent. *)
 Definition blank_to_empty (l : string) : string := if nonempty (strip l) then l else EmptyString.
 
-Fixpoint py_new_go (fx : bool) (start : nat) (rest : list string) (code_lines : list string) (k : nat)
-  : pres (string * nat) :=
+Fixpoint py_new_go (fx : bool) (opener : string) (start : nat) (rest : list string)
+         (code_lines : list string) (k : nat) : pres (string * nat) :=
   match rest with
   | [] => PDiag (DSyntax "py-unclosed" start)
   | line :: rest' =>
       if String.eqb (strip line) "@endpy" then
         let ded := detect_and_strip_indentation code_lines in
         POk (join nl (if fx then map blank_to_empty ded else ded), S k)
-      else py_new_go fx start rest' (code_lines ++ [line]) (S k)
+      else py_new_go fx opener start rest' (code_lines ++ [without_opener_indent line opener]) (S k)
   end.
 
 Definition extract_py_new_syntax_v (fx : bool) (lines : list string) (start : nat) : pres (string * nat) :=
   match nth_error lines start with
   | None => PInternal IIndex                                   (* lines[start_index] *)
-  | Some line =>
+  | Some line =>                                               (* opener = line *)
       if negb (String.eqb (strip line) "@py:") then PDiag (DSyntax "py-missing-colon" start)
-      else py_new_go fx start (skipn (S start) lines) [] 1
+      else py_new_go fx line start (skipn (S start) lines) [] 1
   end.
 
-(* _extract_py_old_syntax: never raises; an unclosed block runs to the end of `lines` and reports
-   one line more than there are (i - start_index + 1 with i = len(lines)).
+(* _extract_py_old_syntax: never raises on the lines the callers hand it; an unclosed block runs to
+   the end of `lines` and reports one line more than there are (i - start_index + 1 with
+   i = len(lines)).  The test for `>>` reads the raw line; everything after it reads the line without
+   the opener's indent (`line = _without_opener_indent(line, opener)`).
    The third arm of the Python `if/elif/else` (append the line unchanged) is unreachable: a
    non-blank line has just set base_indent. *)
-Fixpoint py_old_go (rest : list string) (base : option nat) (code_lines : list string) (k : nat)
-  : string * nat :=
+Fixpoint py_old_go (opener : string) (rest : list string) (base : option nat) (code_lines : list string)
+         (k : nat) : string * nat :=
   match rest with
   | [] => (join nl code_lines, S k)
-  | line :: rest' =>
-      if String.eqb (strip line) ">>" then (join nl code_lines, S k)
+  | raw :: rest' =>
+      if String.eqb (strip raw) ">>" then (join nl code_lines, S k)
       else
+        let line := without_opener_indent raw opener in
         let blank := negb (nonempty (strip line)) in
         let base' := match base with
                      | None => if blank then None else Some (ws_run line)
@@ -293,11 +310,13 @@ Fixpoint py_old_go (rest : list string) (base : option nat) (code_lines : list s
                            then drop b line else line
                | None => line
                end in
-        py_old_go rest' base' (code_lines ++ [adjusted]) (S k)
+        py_old_go opener rest' base' (code_lines ++ [adjusted]) (S k)
   end.
 
+(* `opener = lines[start_index]`: extract_python_block, the only caller, has read that very element
+   before (an index beyond the list is its PInternal IIndex); the default "" is never used *)
 Definition extract_py_old_syntax (lines : list string) (start : nat) : string * nat :=
-  py_old_go (skipn (S start) lines) None [] 1.
+  py_old_go (nth start lines EmptyString) (skipn (S start) lines) None [] 1.
 
 Definition extract_python_block_v (fx : bool) (lines : list string) (start : nat) : pres (string * nat) :=
   match nth_error lines start with
@@ -750,44 +769,57 @@ Definition extract_loop_block_v (lines : list string) (start : nat) : pres (toke
 (* extract_join_choice_block                                                                    *)
 (* ------------------------------------------------------------------------------------------- *)
 
-(* first loop: block_lines and the number of lines taken *)
+(* `line.strip().startswith("#")` *)
+Definition is_comment_line (line : string) : bool := startswith (strip line) "#".
+
+(* first loop: block_lines and the number of lines taken; blank lines and (fix F17m) comment lines
+   at any indentation go into the block without looking at their indentation *)
 Fixpoint join_collect (choice_indent : nat) (rest : list string) (block : list string) (k : nat)
   : list string * nat :=
   match rest with
   | [] => (block, k)
   | line :: rest' =>
       if is_join_block_terminator line then (block, k)
-      else if negb (nonempty (strip line)) then join_collect choice_indent rest' (block ++ [line]) (S k)
+      else if negb (nonempty (strip line)) || is_comment_line line
+      then join_collect choice_indent rest' (block ++ [line]) (S k)
       else if ws_run line <=? choice_indent then (block, k)
       else join_collect choice_indent rest' (block ++ [line]) (S k)
   end.
 
-(* second loop: `for j, line in enumerate(dedented)`; parse_content_line gets line_num
-   start_index + j + 1, i.e. format_error is given index start_index + j *)
-Fixpoint join_parse (start : nat) (ded : list string) (j : nat) (content exec : list token)
+(* fix F17m: `kept = [(j, l) for j, l in enumerate(block_lines) if not l.strip().startswith("#")]` *)
+Fixpoint join_kept (block : list string) (j : nat) : list (nat * string) :=
+  match block with
+  | [] => []
+  | l :: r => if is_comment_line l then join_kept r (S j) else (j, l) :: join_kept r (S j)
+  end.
+
+(* second loop: `for (j, _), line in zip(kept, dedented)`; parse_content_line gets line_num
+   start_index + j + 1, i.e. format_error is given index start_index + j.  The comment arm is still
+   in the Python; no dedented line reaches it any more (comment lines are not in `kept`). *)
+Fixpoint join_parse (start : nat) (items : list (nat * string)) (content exec : list token)
   : pres (list token * list token) :=
-  match ded with
+  match items with
   | [] => POk (content, exec)
-  | line :: r =>
+  | (j, line) :: r =>
       let stripped := strip line in
-      if negb (nonempty stripped) then join_parse start r (S j) (content ++ [tnl]) exec
-      else if startswith stripped "#" then join_parse start r (S j) content exec
+      if negb (nonempty stripped) then join_parse start r (content ++ [tnl]) exec
+      else if startswith stripped "#" then join_parse start r content exec
       else if startswith stripped "~" then
         let code := fst (strip_inline_comment (strip (drop 2 stripped))) in
-        join_parse start r (S j) (content ++ [TPyStmt code]) (exec ++ [TPyStmt code])
+        join_parse start r (content ++ [TPyStmt code]) (exec ++ [TPyStmt code])
       else if startswith stripped "@hook " then
         match hook_parts stripped with
-        | Some (e, t) => join_parse start r (S j) (content ++ [THook true e t]) (exec ++ [THook true e t])
-        | None => join_parse start r (S j) content exec
+        | Some (e, t) => join_parse start r (content ++ [THook true e t]) (exec ++ [THook true e t])
+        | None => join_parse start r content exec
         end
       else if startswith stripped "@unhook " then
         match hook_parts stripped with
-        | Some (e, t) => join_parse start r (S j) (content ++ [THook false e t]) (exec ++ [THook false e t])
-        | None => join_parse start r (S j) content exec
+        | Some (e, t) => join_parse start r (content ++ [THook false e t]) (exec ++ [THook false e t])
+        | None => join_parse start r content exec
         end
       else
         let* toks := at_line (start + j) (lf_content lf line) in
-        join_parse start r (S j) (content ++ toks ++ [tnl]) exec
+        join_parse start r (content ++ toks ++ [tnl]) exec
   end.
 
 Definition extract_join_choice_block (lines : list string) (start choice_indent : nat)
@@ -796,7 +828,9 @@ Definition extract_join_choice_block (lines : list string) (start choice_indent 
   match block with
   | [] => POk ([], [], 0)                                    (* `if not block_lines: return [], [], 0` *)
   | _ =>
-      let* ce := join_parse start (detect_and_strip_indentation block) 0 [] [] in
+      let kept := join_kept block 0 in
+      let dedented := detect_and_strip_indentation (map snd kept) in
+      let* ce := join_parse start (combine (map fst kept) dedented) [] [] in
       POk (fst ce, snd ce, k)
   end.
 
